@@ -118,9 +118,12 @@ def symbols_of(t, acc=None):
 
 def check_identity(expr, timeout_ms=20000):
     """True iff z3 establishes expr == 0 as a polynomial identity (no hypotheses)"""
-    s = z3.simplify(expr, som=True)
-    if z3.is_rational_value(s) and s.numerator_as_long() == 0:
-        return True
+    from .lets import termsize
+    if termsize(expr, 3000) <= 3000:
+        # the rewriter has no time limit: only for moderate terms
+        s = z3.simplify(expr, som=True)
+        if z3.is_rational_value(s) and s.numerator_as_long() == 0:
+            return True
     sol = z3.Solver()
     sol.set('timeout', timeout_ms)
     sol.add(expr != 0)
